@@ -377,7 +377,7 @@ theorem poll_continue_inv (t : T) (h : Inv t) (i : Nat) (w : Waiter) (hw : t.wai
 /-- **Inductive step**: every transition keeps the invariant. -/
 theorem step_inv (t t' : T) (a : Act) (h : Inv t) (hs : step t a = some t') : Inv t' := by
   cases a with
-  | enterWait ch k lock =>
+  | enterWait ch k lock cons =>
     simp only [step] at hs
     split at hs
     · rename_i hcond
@@ -406,7 +406,7 @@ theorem step_inv (t t' : T) (a : Act) (h : Inv t) (hs : step t a = some t') : In
           subst hj
           rcases hlock with hh | ⟨_, hk⟩
           · cases hh
-          · exact ⟨{ chan := ch, entered := t.now, nextPoll := t.now, extra := k }, by simp, rfl, rfl, hk⟩
+          · exact ⟨{ chan := ch, entered := t.now, nextPoll := t.now, extra := k, consuming := cons }, by simp, rfl, rfl, hk⟩
         | false =>
           simp only [Bool.false_eq_true, if_false] at hj
           obtain ⟨w, hw, r1, r2, r3⟩ := hH j hj
@@ -510,7 +510,7 @@ theorem step_inv (t t' : T) (a : Act) (h : Inv t) (hs : step t a = some t') : In
       split at hs
       · rename_i hact
         cases hs
-        obtain ⟨hres, hwb⟩ := (active_iff w).1 hact
+        obtain ⟨hres, hwb⟩ := (active_iff w).1 hact.1
         exact finish_inv t h i w _ t.c hw hres hwb h.nofault (fun τ hτ => (h.fault τ hτ).2) rfl id id
           (fun e a he => by cases he)
       · cases hs
@@ -700,6 +700,19 @@ theorem poll_after_fault_raises (c : C) (hc : Healthy c) (as : List Act) (t t' :
     · cases hs
   · cases hs
 
+/-- **A consuming loop does not end normally once the failure is recorded**: `start_consuming` and the
+    `build_inbound_messages` generator leave their loop when another thread's check has closed the channel
+    under them - and then raise the connection's error instead of returning (regenerated: the check after the
+    loop).  In the model: no `leave` step exists for such a waiter after the record. -/
+theorem consuming_loops_do_not_return_after_failure (c : C) (hc : Healthy c) (as : List Act) (t : T)
+    (hr : run { c := c } as = some t) (i : Nat) (w : Waiter) (τ : Nat)
+    (hw : t.waiters[i]? = some w) (hcons : w.consuming = true) (hf : t.faultAt = some τ)
+    (hgen : Gen.Transport.consumeLoopsCheckOnExit = true) : step t (.leave i) = none := by
+  obtain ⟨_, rest, hrest⟩ := (run_inv as _ t (inv_init c hc) hr).fault τ hf
+  simp [step, hw, hcons, hgen, hrest]
+
+theorem gen_consume_exit : Gen.Transport.consumeLoopsCheckOnExit = true := by decide
+
 /-- **The reader notices a dead socket before any time passes** (it sits in poll, which returns at
     once on EOF/reset); and so does every later call: its first check is immediate. -/
 theorem no_time_passes_on_dead_socket (t : T) (d : Nat) (hd : t.socketDead.isSome) (hrun : t.readerRunning = true)
@@ -788,6 +801,9 @@ example : (run { c := c2 } [.enterWait (some 0) 0 false, .poll 0, .brokerReturn 
     some ([some (.raised (.conn none) 20)], 0, 20) := by decide
 -- time cannot skip a due poll, nor pass while the reader has not noticed the dead socket
 example : (run { c := c2 } [.enterWait (some 0) 0 false, .adv 1]) = none := by decide
+-- a consuming loop cannot return normally after the failure was recorded; an RPC wait whose reply is in still can
+example : (run { c := c2 } [.enterWait (some 0) 1 false true, .poll 0, .die, .readerNotices, .leave 0]) = none := by decide
+example : (run { c := c2 } [.enterWait (some 0) 0 false false, .poll 0, .die, .readerNotices, .leave 0]).isSome = true := by decide
 example : (run { c := c2 } [.die, .adv 1]) = none := by decide
 
 end Amqp.C06
